@@ -320,11 +320,33 @@ func shards(tier string) []string {
 	for i := 0; i < nShards; i++ {
 		out = append(out, fmt.Sprintf("ctx/%d", i))
 	}
-	return append(out, "toplevel")
+	return append(out, "toplevel", "long")
+}
+
+// longBody: n substatements of a container - leaves in the main, a container, a list and leaf-lists
+// among them, extension statements of three different keywords interleaved - so that same-keyword
+// siblings are many and keywords are not in alphabetical order.
+func longBody(n int) string {
+	var sb strings.Builder
+	for i := 0; i < n; i++ {
+		switch {
+		case i%17 == 5:
+			fmt.Fprintf(&sb, " container c%d { leaf in { type string; } }", i)
+		case i%13 == 7:
+			fmt.Fprintf(&sb, " leaf-list ll%d { type string; }", i)
+		case i%11 == 3:
+			fmt.Fprintf(&sb, " %s:e%d x%d;", []string{"p", "q", "a"}[i%3], i%2, i)
+		case i%29 == 11:
+			fmt.Fprintf(&sb, " list li%d { key k; leaf k { type string; } }", i)
+		default:
+			fmt.Fprintf(&sb, " leaf l%d { type string; }", i)
+		}
+	}
+	return sb.String()
 }
 
 func run(c *core.Ctx) {
-	c.Res.Bound = fmt.Sprintf("context chains to depth %d (BFS, one per reachable keyword) x %d child keywords x shapes (x1 x2 x3, interleaved, extension before/after/with block, extensions at every level of the chain, the context keyword nested again below the child with extensions at each level, no argument, every subset of mandatory substatements omitted); every keyword at top level; every text built twice in one process", maxDepth(c.Tier), len(K))
+	c.Res.Bound = fmt.Sprintf("context chains to depth %d (BFS, one per reachable keyword) x %d child keywords x shapes (x1 x2 x3, interleaved, extension before/after/with block, extensions at every level of the chain, the context keyword nested again below the child with extensions at each level, no argument, every subset of mandatory substatements omitted); every keyword at top level; statements with every number 1..300 (and 511..513, 1023..1025, 4095..4097) of mixed substatements; every text built twice in one process", maxDepth(c.Tier), len(K))
 	one := func(in Input) {
 		caseNo, run := c.Begin()
 		if c.Skip(caseNo, run, in) {
@@ -355,6 +377,22 @@ func run(c *core.Ctx) {
 		default:
 			c.Outcome("rejected")
 		}
+	}
+	if c.Shard == "long" {
+		sizes := []int{}
+		for n := 1; n <= 300; n++ {
+			sizes = append(sizes, n)
+		}
+		sizes = append(sizes, 511, 512, 513, 1023, 1024, 1025, 4095, 4096, 4097)
+		for _, n := range sizes {
+			if c.Expired() {
+				return
+			}
+			one(Input{Text: `module m { namespace "urn:m"; prefix m; container top {` + longBody(n) + ` } }`})
+			one(Input{Text: `module m { namespace "urn:m"; prefix m;` + longBody(n) + ` }`})
+			one(Input{Text: `module m { namespace "urn:m"; prefix m; grouping g {` + longBody(n) + ` } rpc r { input {` + longBody(n) + ` } } }`})
+		}
+		return
 	}
 	if c.Shard == "toplevel" {
 		valid := `module m { namespace "urn:m"; prefix m; }`
